@@ -157,6 +157,9 @@ TecmpPayloadPtr TECMP::Decoder::GetCanPayload(const uint8_t* payloadData, const 
 
 TecmpPayloadPtr TECMP::Decoder::GetLinPayload(const uint8_t* payloadData, const std::size_t size)
 {
+    if (!LinPayload::isValidPayload(payloadData, size))
+        return {};
+
     LinPayload payload(payloadData, size);
     if (payload.isValid())
         return std::make_shared<Payload>(payload);
